@@ -163,6 +163,11 @@ func (c *Child) Violation(i uint64, what, sig string, detail map[string]any) {
 	c.out.Flush()
 }
 
+// Data sends a keyed observation to the parent (collected in Run.Data).
+func (c *Child) Data(key, value string) {
+	c.emit(map[string]any{"t": "d", "k": key, "val": value})
+}
+
 func (c *Child) Inconclusive(note string) {
 	c.emit(map[string]any{"t": "i", "note": note})
 }
